@@ -256,6 +256,9 @@ func (fc *FnCtx) callFunction2(callee *ssa.Function, args []Val, binds []Val, po
 		if fc.canInline(callee) {
 			return fc.inline(callee, args, binds, pos, resT)
 		}
+		if fc.inlineDepth <= 2 && len(binds) == 0 && fc.eng.dagInlineable(callee) {
+			return fc.inlineDAG(callee, args, binds, pos, resT)
+		}
 		// no contract: havoc what it may write, results unconstrained
 		fc.cur = fc.cur.havocked(fc.eng.summary(callee))
 		fc.noteTrusted("uncontracted in-repo callee " + key + ": results unconstrained, writes havocked")
